@@ -5,6 +5,8 @@ import JsonbModel.Driver.Wire
 import JsonbModel.De
 import JsonbModel.Ser
 import JsonbModel.Driver.AccessOps
+import JsonbModel.Driver.EditOps
+import JsonbModel.Driver.NumOps
 
 namespace Jsonb.Driver
 open Jsonb.Wire
@@ -43,6 +45,12 @@ def step (line : String) : String :=
   | req =>
     match accessStep req with
     | some r => r
-    | none => badReq
+    | none =>
+      match editStep req with
+      | some r => r
+      | none =>
+        match numStep req with
+        | some r => r
+        | none => badReq
 
 end Jsonb.Driver
